@@ -132,6 +132,7 @@ func diffPaths(a, b any, path string, out *[]string, max int) {
 type mutateJob struct {
 	Config     string            `json:"config"`
 	Parameters map[string]string `json:"parameters"`
+	Order      string            `json:"order"` // forced build: sorted | reverse | native
 }
 
 type stageDiff struct {
@@ -170,6 +171,11 @@ func doMutate(job mutateJob) (res mutateResult) {
 		}
 	}()
 	ctx := context.Background()
+	if job.Order != "" {
+		setOrder(job.Order, nil)
+	} else {
+		setOrder("native", nil)
+	}
 	p, err := loadPipeline(job.Config, job.Parameters)
 	if err != nil {
 		res.Status, res.ErrText = "Err", err.Error()
@@ -202,17 +208,19 @@ func doMutate(job mutateJob) (res mutateResult) {
 			snap0 = now // report each stage's own damage once
 		}
 	}
+	// copies for the "alone" contexts, taken before anything ran (Schemas.DeepCopy: C18)
+	pristine := map[string]ast.Schemas{}
+	for _, name := range names {
+		pristine[name] = shared.DeepCopy()
+	}
 	// (a) each language's chain alone, through compiler.Passes.Process
 	for _, name := range names {
 		_, _ = ls[name].CompilerPasses().Process(shared)
 		check("Passes.Process", name)
 	}
-	// (b) contexts: alone on freshly loaded schemas ...
+	// (b) contexts: alone, on a copy taken before any chain ran ...
 	for _, name := range names {
-		fresh, err := p.LoadSchemas(ctx)
-		if err != nil {
-			continue
-		}
+		fresh := pristine[name]
 		c, err := p.ContextForLanguage(ls[name], fresh)
 		if err != nil {
 			res.CtxAlone[name] = "Err"
